@@ -63,6 +63,7 @@ Variable N Us : list string.
 Variable k : Z.
 Hypothesis Hsep : separated v N Us.
 Hypothesis Hus : users_ok Us.
+Hypothesis Hcan : canonical Us.
 
 (* a launched dApp whose pool fee is a fraction and whose LP supply is not negative (a fact of the bank) *)
 Definition launched (st : state) (n : string) : Prop :=
@@ -72,7 +73,7 @@ Definition launched (st : state) (n : string) : Prop :=
 Definition op_ok (st : state) (o : op) : Prop :=
   match o with
   | OSetCfg _ | OMintFt _ _ => True
-  | OBurnTx u _ _ _ => u <> MOD
+  | OBurnTx u _ _ _ => acct u <> MOD
   | OJoinVerifier _ _ _ => True
   | OUpsert _ _ _ _ p _ _ _ _ => v_upsert_raw v = false /\ p_lp p <> UKEX
   | KSwap u n _ _ _ => u <> MOD /\ launched st n
@@ -95,15 +96,15 @@ Proof. destruct st; reflexivity. Qed.
 Lemma key_mod_ukex a d : key_eqb MOD UKEX a d = true -> a = MOD /\ d = UKEX.
 Proof. intros H. apply key_eqb_true in H. destruct H; subst; auto. Qed.
 
-Lemma burn_tx_inv st u den amt reg st' : I st -> u <> MOD -> burn_tx st u den amt reg = Ok st' -> I st'.
+Lemma burn_tx_inv st u den amt reg st' : I st -> acct u <> MOD -> burn_tx st u den amt reg = Ok st' -> I st'.
 Proof.
   intros HI Hu H. unfold burn_tx in H. destruct (negb reg); [discriminate|]. destruct (amt <? 0); [discriminate|].
-  destruct (send u MOD den amt (led st)) as [l1| |] eqn:E1; [|discriminate|discriminate]. cbn [bind] in H.
+  destruct (send (acct u) MOD den amt (led st)) as [l1| |] eqn:E1; [|discriminate|discriminate]. cbn [bind] in H.
   destruct (burn den amt l1) as [l2| |] eqn:E2; [|discriminate|discriminate]. cbn [bind] in H. inversion H; subst; clear H.
   apply send_spec in E1. destruct E1 as (_ & _ & L1). apply burn_spec in E2. destruct E2 as (_ & _ & L2).
   apply mod_ukex_inv; [now rewrite state_eta|]. rewrite L2, L1. unfold delta.
   rewrite (mod_sup UKEX) || idtac.
-  destruct (key_eqb MOD UKEX u den) eqn:K1; [apply key_mod_ukex in K1; destruct K1; congruence|].
+  destruct (key_eqb MOD UKEX (acct u) den) eqn:K1; [apply key_mod_ukex in K1; destruct K1; congruence|].
   destruct (key_eqb MOD UKEX MOD den) eqn:K2; destruct (key_eqb MOD UKEX SUPPLY den) eqn:K3;
     try (apply key_mod_ukex in K3; destruct K3; discriminate); lia.
 Qed.
@@ -111,7 +112,7 @@ Qed.
 Lemma mint_ft_never st u fresh st' : mint_ft c st u fresh <> Ok st'.
 Proof.
   unfold mint_ft. destruct (as_int64 (c_ft_fee c) <? 0); [discriminate|].
-  destruct (send u MOD UKEX (as_int64 (c_ft_fee c)) (led st)); cbn [bind]; try discriminate.
+  destruct (send (acct u) MOD UKEX (as_int64 (c_ft_fee c)) (led st)); cbn [bind]; try discriminate.
   destruct (burn UKEX (as_int64 (c_ft_fee c)) a); cbn [bind]; try discriminate. destruct (negb fresh); discriminate.
 Qed.
 
@@ -303,7 +304,7 @@ Qed.
 (* ---------------------------------------------------------------- every operation keeps the invariant *)
 Lemma step_ok_inv st o st' : I st -> op_ok st o -> step v c st o = Ok st' -> I st'.
 Proof.
-  intros HI Ho H. destruct o; try (apply (step_inv v c N Us k Hsep Hus st _ st' HI Ho H)); simpl in Ho, H.
+  intros HI Ho H. destruct o; try (apply (step_inv v c N Us k Hsep Hus Hcan st _ st' HI Ho H)); simpl in Ho, H.
   - destruct (get_dapp n st) as [d|] eqn:G; [|discriminate]. destruct Ho as (Hu & HL). destruct (HL d G) as (S1 & _ & _).
     apply get_find in G. destruct G as [F Hn]. rewrite <- Hn in F.
     destruct (swap_k c d u foreign amt fee st) as [[s o]| |] eqn:E; [|discriminate|discriminate]. cbn [bind] in H. inversion H; subst.
@@ -334,12 +335,12 @@ End AllOps.
 
 (* bond conservation over arbitrary operation lists of a tree without the repaired defects *)
 Lemma bond_conservation v c N Us ops l :
-  separated v N Us -> users_ok Us -> valid v c N Us (empty_state l) ops ->
+  separated v N Us -> users_ok Us -> canonical Us -> valid v c N Us (empty_state l) ops ->
   bal MOD UKEX (led (run v c ops (empty_state l))) = sum_totals (dapps (run v c ops (empty_state l))) + bal MOD UKEX l
   /\ (forall n d, find_dapp n (dapps (run v c ops (empty_state l))) = Some d -> d_status d = 0 ->
       d_total d = sum_bonds n (bonds (run v c ops (empty_state l))) /\ d_total d <= max_thr c).
 Proof.
-  intros Hs Hu Hv. pose proof (run_valid_inv v c N Us (bal MOD UKEX l) Hs Hu ops (empty_state l) (Inv_empty c N Us _ l eq_refl) Hv) as HI.
+  intros Hs Hu Hc Hv. pose proof (run_valid_inv v c N Us (bal MOD UKEX l) Hs Hu Hc ops (empty_state l) (Inv_empty c N Us _ l eq_refl) Hv) as HI.
   split; [symmetry; apply (i_held _ _ _ _ _ HI)|]. intros n d F S. split; [apply (i_sum _ _ _ _ _ HI n d F S)|apply (i_max _ _ _ _ _ HI n d F S)].
 Qed.
 
